@@ -672,6 +672,10 @@ func (v *V) instanceFl(k, fl string, d int, only string) any {
 		if only == "" || only == "/" {
 			for i, c := 0, Uniform(v.T, "npaths", 3); i < c || (only == "/" && i == 0); i++ {
 				name := "/" + v.Name("path")
+				if Pct(v.T, "oddpath", 12) {
+					// path templates are opaque member names: nothing may tidy them up
+					name = []string{"/pets/", "//pets", "/a/./b", "/a/../b", "/a//b/", "/{id}/", "/./", "/..", "/a/b/../../c"}[Uniform(v.T, "oddpathname", 9)]
+				}
 				out[name] = v.sub("pathItem", d)
 			}
 		}
